@@ -132,10 +132,23 @@ theorem startBody_cont {c c' : Core} {buf b' : Bytes}
       · simp at h
       · simp at h; obtain ⟨rfl, rfl⟩ := h; exact ⟨rfl, rfl⟩
 
+/-- the event-stream part of a body step continues only through the rest `k` of the step -/
+theorem esStep_cont {c c' : Core} {buf b' : Bytes} {k : Core → Res}
+    (h : esStep c buf k = .cont c' b') : ∃ c1, k c1 = .cont c' b' := by
+  unfold esStep at h
+  split at h
+  · split at h
+    · exact ⟨_, h⟩
+    · split at h
+      · simp [escape] at h
+      · exact absurd h (raise_ne_cont _ _ _ _ _)
+    · simp at h
+  · exact ⟨_, h⟩
+
 theorem chunkDone_cont {c c' : Core} {pm : Parms} {chunk buf b' : Bytes}
     (h : chunkDone c pm chunk buf = .cont c' b') : b' = buf ∧ rank c'.gen = 0 := by
   unfold chunkDone at h
-  simp only [] at h
+  obtain ⟨c1, h⟩ := esStep_cont h
   split at h
   · simp at h
   · simp at h; obtain ⟨rfl, rfl⟩ := h; exact ⟨rfl, rfl⟩
@@ -149,7 +162,7 @@ theorem rspHeadDone_cont {c c' : Core} {h : Hdrs} {buf b' : Bytes}
   unfold rspHeadDone at hh
   simp only [] at hh
   split at hh
-  · simp at hh
+  · exact startBody_cont hh
   · exact startBody_cont hh
 
 theorem sliceTo_length (raw : Bytes) (size : Int) : (sliceTo raw size).2.length ≤ raw.length := by
@@ -267,7 +280,7 @@ theorem stepOn_cont_mu {c c' : Core} {buf b' : Bytes} (h : stepOn c buf = .cont 
     · split at h <;> simp at h
     · simp at h
   case h_14 hg =>  -- bodyClose
-    simp only [] at h
+    obtain ⟨c1, h⟩ := esStep_cont h
     split at h <;> simp at h
 
 /-! ### fuel -/
